@@ -5,6 +5,7 @@ use std::panic;
 use serde_json::Value;
 
 mod address;
+mod c10;
 mod decode;
 mod packet_window;
 mod ss_udp;
@@ -43,6 +44,10 @@ fn dispatch(entry: &str, spec: &Value) -> Result<Option<String>, String> {
         "client_udp_refused_id" => ss_udp::client_refused_id(spec),
         "decode" => decode::run(spec),
         "address_roundtrip" => address::roundtrip(spec),
+        "validate_timestamp" => c10::validate_timestamp(spec),
+        "vmess_matching" => c10::vmess_matching(spec),
+        "mode_bytes" => c10::mode_bytes(spec),
+        "salt_retention" => c10::salt_retention(spec),
         _ => Err(format!("unknown entry {entry}")),
     }
 }
